@@ -35,10 +35,24 @@ def walk(rm, request, context=None):
             return ("malformed", depth, type(e).__name__)
         if not ok:
             return ("refused", depth, type(rt.validator).__name__)
-        if isinstance(rt.func, RequestManager):
-            rm, request, depth = rt.func, opts, depth + 1
+        nxt = _next_manager(rt.func)
+        if nxt is not None:
+            rm, request, depth = nxt, opts, depth + 1
             continue
         return ("handler", depth)
+
+
+def _next_manager(func):
+    """The request manager a route delegates to: a RequestManager itself, or a component's apply_request bound method
+    (which forwards to that component's manager) - however the route was registered, the rest of the path is resolved there."""
+    from primaite.simulator.core import RequestManager
+
+    if isinstance(func, RequestManager):
+        return func
+    owner = getattr(func, "__self__", None)
+    if owner is not None and getattr(func, "__name__", "") == "apply_request" and isinstance(getattr(owner, "_request_manager", None), RequestManager):
+        return owner._request_manager
+    return None
 
 
 class _Monitor:
@@ -61,18 +75,20 @@ class _Monitor:
             outer = cls.depth == 0
             if outer:
                 cls.trace = []
+                cls.top = list(request)
             cls.depth += 1
             try:
-                key = request[0] if request else None
-                if key not in self.request_types:
-                    cls.trace.append(("missing", key))
-                else:
-                    rt = self.request_types[key]
-                    if not isinstance(rt.func, RequestManager):
-                        # leaf: would the validator let it through? (validators are pure; evaluated again by orig)
-                        cls.trace.append(("leaf", key, bool(rt.validator(request[1:], context))))
+                # only calls that resolve the REST OF THE SAME PATH count (a handler may issue requests of its own)
+                req = list(request)
+                same_path = outer or (len(req) <= len(cls.top) and cls.top[len(cls.top) - len(req):] == req)
+                if same_path:
+                    key = request[0] if request else None
+                    if key not in self.request_types:
+                        cls.trace.append(("missing", key))
                     else:
-                        cls.trace.append(("sub", key, bool(rt.validator(request[1:], context))))
+                        rt = self.request_types[key]
+                        ok = bool(rt.validator(request[1:], context))  # validators are pure; evaluated again by orig
+                        cls.trace.append(("leaf" if _next_manager(rt.func) is None else "sub", key, ok))
                 return orig(self, request, context)
             finally:
                 cls.depth -= 1
@@ -89,11 +105,9 @@ class _Monitor:
         for ev in trace:
             if ev[0] == "missing":
                 return "missing"
-            if ev[0] == "sub" and not ev[2]:
+            if not ev[2]:
                 return "refused"
-            if ev[0] == "leaf":
-                return "handler" if ev[2] else "refused"
-        return "none"
+        return "handler" if trace[-1][0] == "leaf" else "none"
 
 
 class MaskOracle:
@@ -232,8 +246,8 @@ def plan(tier):
 
 def make_adapter(name, cfg, p, oracles):
     ad = c01.Adapter("c11-%s-%s" % (name, "k%d" % p.get("k", 0) if "H" in p else "bfs"), cfg, oracles,
-                     init_reset_seed=3, alphabet=alphabet(cfg, p.get("reduced", False)), resets=(),
-                     dev_resets=False, extra_params={"scenario_name": name, "p": {k: v for k, v in p.items() if k != "variant"},
+                     init_reset_seed=3, alphabet=alphabet(cfg, p.get("reduced", False)), resets=((None,),),
+                     dev_resets=True, extra_params={"scenario_name": name, "p": {k: v for k, v in p.items() if k != "variant"},
                                                      "variant": p.get("variant")})
     return ad
 
